@@ -126,6 +126,11 @@ def events(ctx):
     from ..ops_fault import _unit
     rng = ctx.rng
     yield from stretched_pdus(ctx)
+    # every value of the 16-bit day field through the time-code decoders of this one process
+    for d in range(65536):
+        ms = (d * 7919) % 86400000
+        yield record("rob.decode", {"ep": "cds" if d % 2 else "cds.read", "octets": [64, d >> 8, d & 255] + list(ms.to_bytes(4, "big")),
+                                    "full": [], "par": {"none": 0}})
     maxlen = ctx.q(64, 512)
     for _ in range(ctx.q(1500, 12000)):
         for ep, par in all_eps(rng):
